@@ -5,8 +5,9 @@ import ast
 from collections import Counter
 
 from .pymodel import Program
-from .cymodel import CyProgram, X, pp, walk
+from .cymodel import CyProgram, X, pp, walk, rename_x, canonical_mapping, names_in
 from .kernels import report_sites
+from .idioms import diagonal_clear_target, symmetrises
 from .report import Run, AnalysisError
 
 CORE = "pyunicorn.core._ext.numerics"
@@ -33,6 +34,18 @@ def _matrix_stores(stmts, arr):
     return out
 
 
+def _adj_name(f, default="A"):
+    """The adjacency buffer of a rewiring kernel: its 2-D ADJ_t parameter."""
+    for n, t in f.args:
+        if t.kind in ("buffer", "memview") and t.ndim == 2 and t.name == "ADJ_t":
+            return n
+    return default
+
+
+def _role(name, roles):
+    return roles.get(name, name)
+
+
 def w1_geomodel(run: Run, cy: CyProgram):
     f = cy.func(CORE, "_randomly_rewire_geomodel")
     if f is None:
@@ -41,7 +54,7 @@ def w1_geomodel(run: Run, cy: CyProgram):
     for s in walk(f.body):
         if isinstance(s, X) and s.k == "if":
             for cond, b in s.a[0]:
-                st = _matrix_stores(b, "A")
+                st = _matrix_stores(b, _adj_name(f))
                 if st:
                     blocks.append((cond, b, st, s))
     if len(blocks) != 1:
@@ -49,18 +62,29 @@ def w1_geomodel(run: Run, cy: CyProgram):
                             f"{len(blocks)}")
     cond, body, stores, ifnode = blocks[0]
     where = f"{f.module.relpath}:{ifnode.line}"
+    from .loopir import symmetric_store_report
     removed, added = [], []
     sym_ok = True
-    for val, tg, st in stores:
-        pair = frozenset(tg[0])
-        if not (len(tg) == 2 and tg[0] == tuple(reversed(tg[1]))):
+    for (arr, idx, val, st, mirrored) in symmetric_store_report(body, {_adj_name(f)}):
+        if not mirrored:
             sym_ok = False
-        (removed if val == "0" else added).append(tuple(tg[0]))
+        lst = removed if val == "0" else added
+        if tuple(idx) not in lst and tuple(reversed(idx)) not in lst:
+            lst.append(tuple(idx))
     run.oblige("W1", "geomodel:symmetric-stores", sym_ok, sample={"where": where})
     if not sym_ok:
         run.add("W1", "_randomly_rewire_geomodel/asymmetric-store", where,
                 "geographical rewiring must clear/set both orientations of each link "
                 "in one chained store, otherwise the result is not undirected")
+    # end-point roles, in the order the two edges are unpacked from the edge list
+    unpacks = []
+    for st in walk(f.body):
+        if isinstance(st, X) and st.k == "assign" and len(st.a[0]) == 1 and \
+                st.a[0][0].k == "tuple" and len(st.a[0][0].a[0]) == 2 and \
+                all(v.k == "name" for v in st.a[0][0].a[0]) and st.a[1].k == "index":
+            unpacks.append([v.a[0] for v in st.a[0][0].a[0]])
+    order = (unpacks[0] + unpacks[1]) if len(unpacks) >= 2 else None
+    roles = dict(zip(order, ("s", "t", "k", "l"))) if order else {}
     cr = Counter(n for e in removed for n in e)
     ca = Counter(n for e in added for n in e)
     ok = cr == ca and len(removed) == len(added) == 2
@@ -70,15 +94,16 @@ def w1_geomodel(run: Run, cy: CyProgram):
         run.add("W1", "_randomly_rewire_geomodel/degree", where,
                 f"the swap removes links {removed} and adds {added}: the end-point "
                 f"multisets differ ({dict(cr)} vs {dict(ca)}), so node degrees change")
+    A = _adj_name(f)
     tests = [pp(c).replace(" ", "") for c in _conj(cond)]
-    flat = " ".join(tests)
     for e in added:
         a, b = e
-        absent = any(t in (f"(A[{a},{b}]==0)", f"(A[{b},{a}]==0)",
-                           f"(notA[{a},{b}])", f"(notA[{b},{a}])") for t in tests)
+        absent = any(t in (f"({A}[{a},{b}]==0)", f"({A}[{b},{a}]==0)",
+                           f"(0=={A}[{a},{b}])", f"(0=={A}[{b},{a}])",
+                           f"(not{A}[{a},{b}])", f"(not{A}[{b},{a}])") for t in tests)
         run.oblige("W1", f"geomodel:absent:{a}-{b}", absent)
         if not absent:
-            run.add("W1", f"_randomly_rewire_geomodel/absent/{a}-{b}", where,
+            run.add("W1", f"_randomly_rewire_geomodel/absent/{_role(a, roles)}-{_role(b, roles)}", where,
                     f"the swap adds the link ({a},{b}) without testing that it is absent: "
                     f"an existing link is overwritten, the link count drops and degrees "
                     f"change (guard: {tests})")
@@ -90,14 +115,15 @@ def w1_geomodel(run: Run, cy: CyProgram):
         ok = f"({x}!={y})" in tests or f"({y}!={x})" in tests
         run.oblige("W1", f"geomodel:distinct:{x}-{y}", ok)
         if not ok:
-            run.add("W1", f"_randomly_rewire_geomodel/distinct/{x}-{y}", where,
+            run.add("W1", f"_randomly_rewire_geomodel/distinct/"
+                    f"{'-'.join(sorted((_role(x, roles), _role(y, roles))))}", where,
                     f"the swap does not require {x} != {y}: with a shared end point it "
                     f"creates a self-loop or a double link")
     # edge list follows the matrix
     new_edges = []
     for st in body:
-        if st.k == "assign" and st.a[0][0].k == "index" and pp(st.a[0][0].a[0]) == "edges" \
-                and st.a[1].k == "tuple":
+        if st.k == "assign" and st.a[0][0].k == "index" and \
+                pp(st.a[0][0].a[0]) != A and st.a[1].k == "tuple":
             new_edges.append(frozenset(pp(v) for v in st.a[1].a[0]))
     ok = sorted(map(sorted, new_edges)) == sorted(sorted(e) for e in added)
     run.oblige("W1", "geomodel:edge-list", ok, sample={
@@ -111,12 +137,17 @@ def w1_geomodel(run: Run, cy: CyProgram):
              and pp(c.a[0]) in ("cond_len", "cond_deg")]
     for c in calls:
         args = [pp(a) for a in c.a[1]][-4:]
-        ok = args == ["s", "t", "k", "l"]
+        if order is None:
+            run.unknowns.append({"rule": "W1", "what": "edge unpack statements not "
+                                 "recognised: condition argument order not decided"})
+            continue
+        ok = args == order
         run.oblige("W1", f"geomodel:{pp(c.a[0])}-args", ok)
         if not ok:
             run.add("W1", f"_randomly_rewire_geomodel/{pp(c.a[0])}-args", where,
                     f"{pp(c.a[0])} is called with end points {args}, expected "
-                    f"['s','t','k','l'] (the order its conditions are written for)")
+                    f"{order} (first edge, second edge: the order its conditions are "
+                    f"written for)")
 
 
 def w1_cross(run: Run, cy: CyProgram):
@@ -128,6 +159,20 @@ def w1_cross(run: Run, cy: CyProgram):
         raise AnalysisError(f"{f.where}: swap loop not found")
     body = loops[0].a[2]
     where = f"{f.module.relpath}:{loops[0].line}"
+    # alpha-normalise: parameters by position (the call sites are positional),
+    # the two drawn link indices by their unpack statement
+    roles = {}
+    for (n, t), c in zip(f.args[:3], ("A", "cross_A", "cross_links")):
+        roles[n] = c
+    for st in walk(body):
+        if isinstance(st, X) and st.k == "assign" and len(st.a[0]) == 1 and \
+                st.a[0][0].k == "tuple" and len(st.a[0][0].a[0]) == 2 and \
+                st.a[1].k == "tuple" and all(v.k == "call" for v in st.a[1].a[0]) and \
+                all(v.k == "name" for v in st.a[0][0].a[0]):
+            for v, c in zip(st.a[0][0].a[0], ("e1", "e2")):
+                roles.setdefault(v.a[0], c)
+            break
+    body = rename_x(body, canonical_mapping(roles, names_in(body)))
     stores = _matrix_stores(body, "cross_A")
     removed = [t for v, tg, st in stores if v == "0" for t in tg]
     added = [t for v, tg, st in stores if v == "1" for t in tg]
@@ -271,16 +316,30 @@ def w4(run: Run, prog: Program):
         raise AnalysisError("set_random_links_by_distance vanished")
     body = m.node.body
     idx = {}
+    sn_ = m.params[0]
+    # the local handed to the adjacency setter, and the random matrix it is
+    # thresholded against
+    A = P = None
     for i, st in enumerate(body):
-        s = ast.unparse(st)
-        if "P + P.transpose()" in s or "P + P.T" in s:
-            idx["sym"] = i
-        if s.startswith("A = "):
-            idx["A"] = i
-        if s.startswith("np.fill_diagonal(A, 0)"):
-            idx["diag"] = i
-        if s.startswith("self.adjacency = A"):
+        if isinstance(st, ast.Assign) and isinstance(st.targets[0], ast.Attribute) and \
+                st.targets[0].attr == "adjacency" and isinstance(st.value, ast.Name):
+            A = st.value.id
             idx["set"] = i
+    for i, st in enumerate(body):
+        if A and isinstance(st, ast.Assign) and isinstance(st.targets[0], ast.Name) and \
+                st.targets[0].id == A:
+            cmps = [n for n in ast.walk(st.value) if isinstance(n, ast.Compare)]
+            if cmps:
+                idx["A"] = i
+                rnd = [x.id for x in ast.walk(cmps[0]) if isinstance(x, ast.Name)]
+                for cand in rnd:
+                    if any(symmetrises(b, cand) for b in body):
+                        P = cand
+    for i, st in enumerate(body):
+        if P and symmetrises(st, P):
+            idx["sym"] = i
+        if A and diagonal_clear_target(st) == A:
+            idx["diag"] = i
     ok = all(k in idx for k in ("sym", "A", "diag", "set")) and \
         idx["sym"] < idx["A"] < idx["diag"] < idx["set"]
     run.oblige("W4", "set_random_links_by_distance", ok, sample={"order": idx})
